@@ -15,7 +15,9 @@ Parts
      (also inverted); reorder with every block permutation / every connection permutation with any
      subset reversed; minc; `+`; embed; check(fix=True).  Two histories reaching the same view
      (ordered lists of names, rock assignment, volumes) are expanded once.  Length 4 (thorough): all
-     states reached from 'empty' and 'chain3', a seeded quarter of those reached from 'ring4'.
+     states reached from 'empty' and 'chain3', a seeded eighth of those reached from 'ring4'; at the
+     last level of either tier rename_blocks is called through t2grid only (its t2data and fix_blocknames=False
+     entry points are enumerated at the levels before).
   B  real replays without any cloning: every sequence of length <= 2 from the three initial grids,
      and random sequences of length <= 60 on the small universe.
   C  random sequences of length <= 60 on grids of <= 200 blocks built from geometries
@@ -1061,8 +1063,8 @@ def main():
             nfull = len(frontier)
             if level == 4:
                 # length-4 sequences: every one from 'empty' and 'chain3' (the fourth name gets added on the way);
-                # from 'ring4' (whose alphabet is the largest) a seeded quarter of the length-3 states
-                frontier = [x for x in frontier if x[0] != 'ring4' or rnd.random() < 0.25]
+                # from 'ring4' (whose alphabet is the largest) a seeded eighth of the length-3 states
+                frontier = [x for x in frontier if x[0] != 'ring4' or rnd.random() < 0.125]
             rnd.shuffle(frontier)
             csize = max(1, min(200, len(frontier) // (nproc * 4) + 1))
             # the t2data / fix_blocknames=False entry points of rename_blocks are enumerated at every level but the last
@@ -1093,8 +1095,8 @@ def main():
             total.merge(st)
             nb1 += n
         # ---- part B2 / C: random sequences
-        nsmall = 1500 if tier == 'quick' else 60000
-        nbig = 160 if tier == 'quick' else 6000
+        nsmall = 1500 if tier == 'quick' else 30000
+        nbig = 160 if tier == 'quick' else 4000
         per = max(1, nsmall // (nproc * 4))
         tasks = [(seed * 1000003 + i, per, 60) for i in range(nsmall // per)]
         nb2 = 0
